@@ -37,6 +37,21 @@ def find_file_loop(fi):
     raise AnalysisError("cli.main.main: per-file loop (a for loop that opens files) not found")
 
 
+def inline_locals(e, fi, depth=0):
+    """Replace names that have exactly one definition in fi by the defining expression (recursively)."""
+    import copy
+
+    class T(ast.NodeTransformer):
+        def visit_Name(self, n):
+            if not isinstance(n.ctx, ast.Load) or depth > 6:
+                return n
+            defs = [d for d in own_nodes(fi.node) if isinstance(d, ast.Assign) and any(isinstance(t, ast.Name) and t.id == n.id for t in d.targets)]
+            if len(defs) == 1 and not any(isinstance(x, ast.Name) and x.id == n.id for x in ast.walk(defs[0].value)):
+                return inline_locals(defs[0].value, fi, depth + 1)
+            return n
+    return T().visit(copy.deepcopy(e))
+
+
 def const_str(e):
     return e.value if isinstance(e, ast.Constant) and isinstance(e.value, str) else None
 
@@ -324,20 +339,7 @@ def run(project, chk):
     if open_w is None:
         raise AnalysisError("main: output open(..., 'w') not found")
 
-    def expand(e, depth=0):
-        """Inline single-assignment locals of main into an expression."""
-        if depth > 6:
-            return e
-        if isinstance(e, ast.Name):
-            defs = [d for d in own_nodes(main.node) if isinstance(d, ast.Assign) and any(isinstance(t, ast.Name) and t.id == e.id for t in d.targets)]
-            if len(defs) == 1:
-                return expand(defs[0].value, depth + 1)
-            return e
-        if isinstance(e, ast.BinOp):
-            return ast.BinOp(left=expand(e.left, depth + 1), op=e.op, right=expand(e.right, depth + 1))
-        return e
-
-    target = expand(open_w.args[0])
+    target = inline_locals(open_w.args[0], main)
     names_used = {n.id for n in ast.walk(target) if isinstance(n, ast.Name)}
     chk.check(names_used == {loop_var}, "I5", main.short, norm_text(target), project.loc(m, open_w),
               f"the output path is a function of the input path {loop_var} only", how=f"after inlining locals: {norm_text(target)}",
